@@ -9,7 +9,7 @@ if subprocess.run(["git", "-C", REPO, "status", "--porcelain"], capture_output=T
     sys.exit(2)
 bad = 0
 only = sys.argv[1:]
-for d in sorted(glob.glob(os.path.join(HERE, "seeded", "*"))):
+for d in sorted([d for d in glob.glob(os.path.join(HERE, "seeded", "*")) if not os.path.basename(d).startswith("_")]):
     sid = os.path.basename(d)
     if only and not any(sid.startswith(o) for o in only):
         continue
